@@ -945,7 +945,7 @@ def _json_same(a, b, path="result"):
     """None when the two encoded values agree (numbers to 1e-9 relative), else a description of the first difference."""
     if isinstance(a, dict) and isinstance(b, dict) and "t" in a and "t" in b:
         ta, tb = a["t"], b["t"]
-        num = ("int", "float", "bool")
+        num = ("int", "float", "bool", "npint")  # (the native runner reports a numpy integer as an int)
         if ta in num and tb in num:
             return None if _close(a["v"], b["v"]) else f"{path}: {a['v']} vs {b['v']}"
         seq_t = ("list", "tuple", "ndarray")
